@@ -128,6 +128,36 @@ def keyMeaning {G : Type} (key : String) (ctrl alt super : Bool) (text : List G)
   else if ctrl ∨ alt ∨ super then .noop
   else .insert text
 
+/-- The binding table the model (`keySwitch`) and `keyMeaning` dispatch on: case labels in source
+order with the ideal operation of the arm (`[]` = default arm). Compared with the labels extracted
+from textinput.go (`Gen.EditorKeys.updateCases`) in `Props.C17.update_bindings_extracted`. -/
+def bindingTable : List (List String × Op Nat) := [
+  (["Ctrl+a", "Home"], .home),
+  (["Ctrl+e", "End"], .toEnd),
+  (["Ctrl+f", "Right"], .right),
+  (["Ctrl+b", "Left"], .left),
+  (["Alt+f", "Ctrl+Right"], .wordRight),
+  (["Alt+b", "Ctrl+Left"], .wordLeft),
+  (["Ctrl+d", "Delete"], .deleteRight),
+  (["Ctrl+k"], .killToEnd),
+  (["Ctrl+u"], .killToStart),
+  (["Ctrl+h", "BackSpace"], .deleteLeft),
+  (["Ctrl+w"], .deleteWordLeft),
+  ([], .insert [7])]
+
+/-- The `if` chain of TextField.HandleEvent as the model `TextField.handleKey` reads it. -/
+def handleEventTable : List (String × String) := [
+  ("ev.EventType == vaxis.EventRelease", ""),
+  ("len(ev.Text) > 0", "tf.InsertStringAtCursor(ev.Text)"),
+  ("ev.Matches('a', vaxis.ModCtrl) || ev.Matches(vaxis.KeyHome)", "tf.CursorTo(0)"),
+  ("ev.Matches('e', vaxis.ModCtrl) || ev.Matches(vaxis.KeyEnd)", "tf.CursorTo(tf.n)"),
+  ("ev.Matches('f', vaxis.ModCtrl) || ev.Matches(vaxis.KeyRight)", "tf.CursorTo(tf.cursor + 1)"),
+  ("ev.Matches('b', vaxis.ModCtrl) || ev.Matches(vaxis.KeyLeft)", "tf.CursorTo(tf.cursor - 1)"),
+  ("ev.Matches('d', vaxis.ModCtrl) || ev.Matches(vaxis.KeyDelete)", "tf.DeleteCharRightOfCursor()"),
+  ("ev.Matches('h', vaxis.ModCtrl) || ev.Matches(vaxis.KeyBackspace)", "tf.DeleteCharLeftOfCursor()"),
+  ("ev.Matches('k', vaxis.ModCtrl)", "tf.DeleteCursorToEndOfLine()"),
+  ("ev.Matches(vaxis.KeyEnter)", "tf.Reset()")]
+
 def tiSpecOf {G : Type} (m : TI G) : Ev G → Op G
   | .pasteEnd => .insert m.paste
   | .release => .noop
